@@ -84,6 +84,8 @@ type ddEngine struct {
 	// concreteAtoms: undetermined conditions are keyed with the known values of their operands substituted
 	// (points[i].Time with i = 2 is the atom "...[2]..."), so that a loop over known indexes yields one atom per element
 	concreteAtoms bool
+	// onCall: called for every call instruction executed on a path, with the state at that point
+	onCall func(s *ddState, c *ssa.Call)
 }
 
 // keyOf: the atom key of condition v in state s.
@@ -560,6 +562,11 @@ func (e *ddEngine) walk(s *ddState, b, prev *ssa.BasicBlock, steps int) {
 				e.walk(s2, b.Succs[1], b, steps)
 				prev, b = b, b.Succs[0]
 			default:
+				if e.onCall != nil {
+					if cv, ok := in.(*ssa.Call); ok {
+						e.onCall(s, cv)
+					}
+				}
 				e.evalInstr(s, in, prev)
 			}
 		}
